@@ -873,6 +873,16 @@ func init() {
 					region[fn] = true
 					roots[fn] = true
 				}
+				// ... and the free functions that inspect a decoded packet before the handlers see it (checkPacket):
+				// a packet that is only a common header decodes to an empty chunk list
+				if fn.Parent() == nil && fn.Signature.Recv() == nil && fn.Blocks != nil {
+					for i := 0; i < fn.Signature.Params().Len(); i++ {
+						if typeShort(fn.Signature.Params().At(i).Type()) == "*packet" {
+							region[fn] = true
+							roots[fn] = true
+						}
+					}
+				}
 			}
 			ks := keyer{}
 			for _, o := range c.P.LengthGuards(region, roots) {
